@@ -10,8 +10,18 @@
  *   group <k> <dont_merge>          insert a Group with the cpuset of the (k mod nobjs)-th object in DFS order (normal, not the root)
  *   allow <cpuset> <nodeset>        hwloc_topology_allow(CUSTOM) (only effective with INCLUDE_DISALLOWED)
  *   restrict <set> <flags>          set = <hex mask> | I<hex mask of the complement> (infinite set)
+ *   dist <name|-> <kind> <vseed> <n> <k1>..<kn>   hwloc_distances_add_create/values/commit over the (k_i mod nobjs)-th objects in DFS
+ *                                   order (duplicates dropped), values = a fixed function of (vseed, cell)
+ *   cpukind <cpuset> <forced> <n> <name> <value>..   hwloc_cpukinds_register
+ *   mattr <name> <flags>            hwloc_memattr_register
+ *   mval <attr name> <k target> <-|c<cpuset>|o<k>> <value>    hwloc_memattr_set_value (initiator: none, cpuset, object)
+ *   sideinit                        observe the side structures (distances, CPU kinds, memory attributes) through the public API;
+ *                                   the model ADOPTS this observation (plus the forced efficiencies, which no public call returns)
+ *   observe <mask>                  observe them again (1 distances, 2 CPU kinds, 4 memory attributes); the model PREDICTS this
+ *                                   observation from the adopted one and the restricts since (C13/C14/C15 models) and compares
  * c-out: one line per op.  trace-out (input of the Lean driver): for topo/misc/allow one line `echo <c-out line>`;
- * for restrict: dump BEFORE (tag B), `restrict <set> <flags> <ret> <errno>`, dump AFTER (tag A).
+ * for restrict: dump BEFORE (tag B), `restrict <set> <flags> <ret> <errno>`, dump AFTER (tag A);
+ * for sideinit/observe: `SIDE <I|O> <mask>`, lines SD/SK/SA/ST/SI (see side_dump), `SEND <summary>`.
  */
 #include "topology.c"          /* only for the static tables obj_type_order[] / obj_type_priority[] (--consts) */
 #include "dump.h"
@@ -79,7 +89,8 @@ static void say(const char *fmt, ...) {
   if (ftrace) { fprintf(ftrace, "echo %s\n", b); fflush(ftrace); }
 }
 
-static void drop_topo(void) { if (topo) hwloc_topology_destroy(topo); topo = NULL; topo_loaded = 0; }
+static int side_active;
+static void drop_topo(void) { if (topo) hwloc_topology_destroy(topo); topo = NULL; topo_loaded = 0; side_active = 0; }
 
 static void do_topo(char kind, unsigned long flags, const char *filters, const char *arg) {
   drop_topo();
@@ -163,6 +174,211 @@ static void do_restrict(const char *ss, unsigned long flags) {
   hwloc_bitmap_free(s);
 }
 
+
+/* ---------------------------------------------------------------- side structures: distances, CPU kinds, memory attributes */
+static hwloc_obj_t obj_by_k(unsigned long k) {
+  struct objlist l = {0};
+  ol_collect(&l, hwloc_get_root_obj(topo));
+  hwloc_obj_t o = l.o[k % l.n];
+  free(l.o);
+  return o;
+}
+static unsigned long k_of_obj(hwloc_obj_t o) {
+  struct objlist l = {0}; unsigned long k = 0;
+  ol_collect(&l, hwloc_get_root_obj(topo));
+  for (unsigned i = 0; i < l.n; i++) if (l.o[i] == o) { k = i; break; }
+  free(l.o);
+  return k;
+}
+static unsigned long long cellval(unsigned long vseed, unsigned cell) {
+  uint64_t x = (uint64_t) vseed * 0x9E3779B97F4A7C15ULL + (uint64_t) (cell + 1) * 0xBF58476D1CE4E5B9ULL;
+  x ^= x >> 29; x *= 0x94D049BB133111EBULL; x ^= x >> 32;
+  return (unsigned long long) (x % 999983ULL) + 1;
+}
+/* strings without blanks: every byte outside [A-Za-z0-9_.:+=/-] as %XX, the empty string as a lone % */
+static void put_esc(FILE *f, const char *s) {
+  if (!s || !*s) { fputc('%', f); return; }
+  for (; *s; s++) {
+    unsigned char c = (unsigned char) *s;
+    if ((c >= 'A' && c <= 'Z') || (c >= 'a' && c <= 'z') || (c >= '0' && c <= '9') || strchr("_.:+=/-", c)) fputc(c, f);
+    else fprintf(f, "%%%02X", c);
+  }
+}
+static void put_objref(FILE *f, hwloc_obj_t o) {
+  fprintf(f, "%d:%llu:%d", (int) o->type, (unsigned long long) o->gp_index, o->os_index == (unsigned) -1 ? -1 : (int) o->os_index);
+}
+
+static void do_dist(char *args) {
+  if (!topo_loaded) { say("dist skip"); return; }
+  char *name = strtok(args, " "), *kinds = name ? strtok(NULL, " ") : NULL, *vs = kinds ? strtok(NULL, " ") : NULL, *ns = vs ? strtok(NULL, " ") : NULL;
+  if (!ns) { say("dist badop"); return; }
+  unsigned long kind = strtoul(kinds, NULL, 10), vseed = strtoul(vs, NULL, 10); unsigned n = (unsigned) strtoul(ns, NULL, 10);
+  if (n > 64) { say("dist badop"); return; }
+  hwloc_obj_t objs[64]; unsigned m = 0;
+  for (unsigned i = 0; i < n; i++) {
+    char *t = strtok(NULL, " "); if (!t) { say("dist badop"); return; }
+    hwloc_obj_t o = obj_by_k(strtoul(t, NULL, 10)); int dupl = 0;
+    for (unsigned j = 0; j < m; j++) if (objs[j] == o) dupl = 1;
+    if (!dupl) objs[m++] = o;
+  }
+  hwloc_uint64_t *vals = malloc((m * m + 1) * sizeof *vals);
+  for (unsigned c = 0; c < m * m; c++) vals[c] = cellval(vseed, c);
+  errno = 0;
+  void *h = hwloc_distances_add_create(topo, strcmp(name, "-") ? name : NULL, kind, 0);
+  if (!h) { say("dist create %s", errname(errno)); free(vals); return; }
+  if (hwloc_distances_add_values(topo, h, m, objs, vals, 0) < 0) { say("dist values %s", errname(errno)); free(vals); return; }
+  free(vals);
+  if (hwloc_distances_add_commit(topo, h, 0) < 0) { say("dist commit %s", errname(errno)); return; }
+  say("dist ok %u", m);
+}
+
+static void do_cpukind(char *args) {
+  if (!topo_loaded) { say("cpukind skip"); return; }
+  char *cs = strtok(args, " "), *fs = cs ? strtok(NULL, " ") : NULL, *ns = fs ? strtok(NULL, " ") : NULL;
+  if (!ns) { say("cpukind badop"); return; }
+  hwloc_bitmap_t c = parse_set(cs); if (!c) { say("cpukind badset"); return; }
+  unsigned n = (unsigned) strtoul(ns, NULL, 10); if (n > 8) { hwloc_bitmap_free(c); say("cpukind badop"); return; }
+  struct hwloc_info_s arr[8]; struct hwloc_infos_s infos; memset(&infos, 0, sizeof infos);
+  for (unsigned i = 0; i < n; i++) {
+    char *a = strtok(NULL, " "), *b = a ? strtok(NULL, " ") : NULL;
+    if (!b) { hwloc_bitmap_free(c); say("cpukind badop"); return; }
+    arr[i].name = a; arr[i].value = b;
+  }
+  infos.array = arr; infos.count = n; infos.allocated = n;
+  errno = 0;
+  int r = hwloc_cpukinds_register(topo, c, atoi(fs), n ? &infos : NULL, 0);
+  say("cpukind %d %s", r, r < 0 ? errname(errno) : "ok");
+  hwloc_bitmap_free(c);
+}
+
+static void do_mattr(const char *name, unsigned long flags) {
+  if (!topo_loaded) { say("mattr skip"); return; }
+  hwloc_memattr_id_t id = 0; errno = 0;
+  int r = hwloc_memattr_register(topo, name, flags, &id);
+  say("mattr %d %s", r, r < 0 ? errname(errno) : "ok");
+}
+
+static void do_mval(const char *an, unsigned long kt, const char *ini, unsigned long long v) {
+  if (!topo_loaded) { say("mval skip"); return; }
+  hwloc_memattr_id_t id;
+  if (hwloc_memattr_get_by_name(topo, an, &id) < 0) { say("mval noattr"); return; }
+  hwloc_obj_t t = obj_by_k(kt);
+  struct hwloc_location loc, *lp = NULL; hwloc_bitmap_t c = NULL;
+  if (ini[0] == 'c') { c = parse_set(ini + 1); if (!c) { say("mval badset"); return; } loc.type = HWLOC_LOCATION_TYPE_CPUSET; loc.location.cpuset = c; lp = &loc; }
+  else if (ini[0] == 'o') { loc.type = HWLOC_LOCATION_TYPE_OBJECT; loc.location.object = obj_by_k(strtoul(ini + 1, NULL, 10)); lp = &loc; }
+  errno = 0;
+  int r = hwloc_memattr_set_value(topo, id, t, lp, 0, v);
+  say("mval %d %s", r, r < 0 ? errname(errno) : "ok");
+  hwloc_bitmap_free(c);
+}
+
+/* the observation, through the public API only (init: plus the forced efficiencies of the CPU kinds, which no public call returns).
+ *   SD <name|%> <kind> <n> <type:gp:os>*n <value>*n*n                 one per distances structure, hwloc_distances_get order
+ *   SK <cpuset> <efficiency> <forced|-> <ninfos> (<name> <value>)*   one per CPU kind, index order
+ *   SA <id> <name> <flags>                                           one per memory attribute with id >= 2 (not the convenience ones)
+ *   ST <id> <type:gp:os> <value>                                     its targets (hwloc_memattr_get_targets, NULL initiator)
+ *   SI <id> <target gp> <c<cpuset>|o<type:gp>> <value> <get_value>    their initiators (get_initiators; get_value asked with that one) */
+static struct side_agg { unsigned nd, dobjs, nk, kw, nt, ni, iw; } agg_cur, agg_prev[3];   /* measured effect of the restricts (statistics only) */
+static void side_dump(FILE *f, int init, unsigned mask, unsigned *nd_, unsigned *nk_, unsigned *na_, unsigned *nt_) {
+  unsigned ndo = 0, nko = 0, nao = 0, nto = 0;
+  memset(&agg_cur, 0, sizeof agg_cur);
+  fprintf(f, "SIDE %c %u\n", init ? 'I' : 'O', mask);
+  if (mask & 1) {
+    unsigned nd = 0; hwloc_distances_get(topo, &nd, NULL, 0, 0);
+    struct hwloc_distances_s **ds = calloc(nd + 1, sizeof *ds); unsigned got = nd;
+    hwloc_distances_get(topo, &got, ds, 0, 0);
+    for (unsigned k = 0; k < got && k < nd; k++) {
+      const char *nm = hwloc_distances_get_name(topo, ds[k]);
+      fprintf(f, "SD "); put_esc(f, nm); fprintf(f, " %lu %u", ds[k]->kind, ds[k]->nbobjs);
+      for (unsigned j = 0; j < ds[k]->nbobjs; j++) { fputc(' ', f); if (ds[k]->objs[j]) put_objref(f, ds[k]->objs[j]); else fprintf(f, "NULL"); }
+      for (unsigned j = 0; j < ds[k]->nbobjs * ds[k]->nbobjs; j++) fprintf(f, " %llu", (unsigned long long) ds[k]->values[j]);
+      fputc('\n', f);
+      agg_cur.nd++; agg_cur.dobjs += ds[k]->nbobjs;
+      hwloc_distances_release(topo, ds[k]);
+      ndo++;
+    }
+    free(ds);
+  }
+  if (mask & 2) {
+    int nr = hwloc_cpukinds_get_nr(topo, 0); hwloc_bitmap_t cs = hwloc_bitmap_alloc();
+    for (int k = 0; k < nr; k++) {
+      int eff = -2; struct hwloc_infos_s *ip = NULL;
+      if (hwloc_cpukinds_get_info(topo, (unsigned) k, cs, &eff, &ip, 0) < 0) { fprintf(f, "SK get-info-fails\n"); continue; }
+      fprintf(f, "SK "); put_set(f, cs); fprintf(f, " %d ", eff);
+      if (init) fprintf(f, "%d", topo->cpukinds[k].forced_efficiency); else fputc('-', f);
+      fprintf(f, " %u", ip ? ip->count : 0);
+      for (unsigned i = 0; ip && i < ip->count; i++) { fputc(' ', f); put_esc(f, ip->array[i].name); fputc(' ', f); put_esc(f, ip->array[i].value); }
+      fputc('\n', f);
+      agg_cur.nk++; agg_cur.kw += (unsigned) hwloc_bitmap_weight(cs);
+      nko++;
+    }
+    hwloc_bitmap_free(cs);
+  }
+  if (mask & 4) {
+    for (hwloc_memattr_id_t id = 2; ; id++) {
+      const char *nm = NULL; unsigned long fl = 0;
+      if (hwloc_memattr_get_name(topo, id, &nm) < 0 || hwloc_memattr_get_flags(topo, id, &fl) < 0) break;
+      fprintf(f, "SA %u ", (unsigned) id); put_esc(f, nm); fprintf(f, " %lu\n", fl);
+      nao++;
+      unsigned nt = 0;
+      if (hwloc_memattr_get_targets(topo, id, NULL, 0, &nt, NULL, NULL) < 0) { fprintf(f, "ST %u get-targets-fails\n", (unsigned) id); continue; }
+      hwloc_obj_t *tg = calloc(nt + 1, sizeof *tg); hwloc_uint64_t *tv = calloc(nt + 1, sizeof *tv); unsigned got = nt;
+      hwloc_memattr_get_targets(topo, id, NULL, 0, &got, tg, tv);
+      for (unsigned t = 0; t < got && t < nt; t++) {
+        if (!tg[t]) { fprintf(f, "ST %u NULL\n", (unsigned) id); continue; }
+        fprintf(f, "ST %u ", (unsigned) id); put_objref(f, tg[t]); fprintf(f, " %llu\n", (unsigned long long) tv[t]);
+        nto++; agg_cur.nt++;
+        if (!(fl & HWLOC_MEMATTR_FLAG_NEED_INITIATOR)) continue;
+        unsigned ni = 0;
+        if (hwloc_memattr_get_initiators(topo, id, tg[t], 0, &ni, NULL, NULL) < 0) { fprintf(f, "SI %u %llu get-initiators-fails\n", (unsigned) id, (unsigned long long) tg[t]->gp_index); continue; }
+        struct hwloc_location *il = calloc(ni + 1, sizeof *il); hwloc_uint64_t *iv = calloc(ni + 1, sizeof *iv); unsigned goti = ni;
+        hwloc_memattr_get_initiators(topo, id, tg[t], 0, &goti, il, iv);
+        for (unsigned i = 0; i < goti && i < ni; i++) {
+          fprintf(f, "SI %u %llu ", (unsigned) id, (unsigned long long) tg[t]->gp_index);
+          agg_cur.ni++;
+          if (il[i].type == HWLOC_LOCATION_TYPE_CPUSET) { fputc('c', f); put_set(f, il[i].location.cpuset); agg_cur.iw += (unsigned) hwloc_bitmap_weight(il[i].location.cpuset); }
+          else if (il[i].location.object) fprintf(f, "o%d:%llu", (int) il[i].location.object->type, (unsigned long long) il[i].location.object->gp_index);
+          else fprintf(f, "oNULL");
+          hwloc_uint64_t gv = 0;
+          fprintf(f, " %llu ", (unsigned long long) iv[i]);
+          if (hwloc_memattr_get_value(topo, id, tg[t], &il[i], 0, &gv) < 0) fprintf(f, "E\n"); else fprintf(f, "%llu\n", (unsigned long long) gv);
+        }
+        free(il); free(iv);
+      }
+      free(tg); free(tv);
+    }
+  }
+  *nd_ = ndo; *nk_ = nko; *na_ = nao; *nt_ = nto;
+}
+
+static void do_side(int init, unsigned mask) {
+  if (!topo_loaded) { say(init ? "sideinit skip" : "side skip"); return; }
+  unsigned nd, nk, na, nt;
+  if (init) { mask = 7; side_active = 1; }
+  else if (!side_active) { say("side notinit"); return; }
+  if (ftrace) {
+    side_dump(ftrace, init, mask, &nd, &nk, &na, &nt);
+    fprintf(ftrace, "SEND\n"); fflush(ftrace);
+  } else {
+    FILE *nul = fopen("/dev/null", "w"); side_dump(nul, init, mask, &nd, &nk, &na, &nt); fclose(nul);
+  }
+  fprintf(fout, "%s mask=%u nd=%u nk=%u na=%u nt=%u\n", init ? "sideinit" : "side", mask, nd, nk, na, nt); fflush(fout);
+  stat_hit(init ? "side.init" : "side.observe");
+  if (nd) stat_hit(init ? "side.init.with_distances" : "side.observe.with_distances");
+  if (nk) stat_hit(init ? "side.init.with_cpukinds" : "side.observe.with_cpukinds");
+  if (nt) stat_hit(init ? "side.init.with_memattr_targets" : "side.observe.with_memattr_targets");
+  if (!init) {
+    if ((mask & 1) && agg_cur.nd < agg_prev[0].nd) stat_hit("side.effect.distances_dropped");
+    if ((mask & 1) && agg_cur.nd == agg_prev[0].nd && agg_cur.dobjs < agg_prev[0].dobjs) stat_hit("side.effect.distances_shrunk");
+    if ((mask & 2) && agg_cur.nk < agg_prev[1].nk) stat_hit("side.effect.cpukind_removed");
+    if ((mask & 2) && agg_cur.nk == agg_prev[1].nk && agg_cur.kw < agg_prev[1].kw) stat_hit("side.effect.cpukind_clipped");
+    if ((mask & 4) && agg_cur.nt < agg_prev[2].nt) stat_hit("side.effect.memattr_target_removed");
+    if ((mask & 4) && agg_cur.ni < agg_prev[2].ni) stat_hit("side.effect.memattr_initiator_removed");
+    if ((mask & 4) && agg_cur.ni == agg_prev[2].ni && agg_cur.iw < agg_prev[2].iw) stat_hit("side.effect.memattr_initiator_clipped");
+  }
+  for (int b = 0; b < 3; b++) if (mask & (1u << b)) agg_prev[b] = agg_cur;
+}
+
 static void exec_line(char *line) {
   char a[64], b[64]; unsigned long u; int pos = 0; char kind;
   line[strcspn(line, "\n")] = 0;
@@ -179,6 +395,15 @@ static void exec_line(char *line) {
   } else if (!strncmp(line, "restrict ", 9)) {
     char *s = strtok(line + 9, " "), *f = s ? strtok(NULL, " ") : NULL;
     if (s && f) do_restrict(s, strtoul(f, NULL, 10)); else say("restrict badop");
+  } else if (!strncmp(line, "dist ", 5)) { do_dist(line + 5);
+  } else if (!strncmp(line, "cpukind ", 8)) { do_cpukind(line + 8);
+  } else if (!strncmp(line, "mattr ", 6)) {
+    if (sscanf(line + 6, "%63s %lu", a, &u) == 2) do_mattr(a, u); else say("mattr badop");
+  } else if (!strncmp(line, "mval ", 5)) {
+    unsigned long long v; char ini[20000];
+    if (strlen(line) < sizeof ini && sscanf(line + 5, "%63s %lu %s %llu", a, &u, ini, &v) == 4) do_mval(a, u, ini, v); else say("mval badop");
+  } else if (!strcmp(line, "sideinit")) { do_side(1, 7);
+  } else if (!strncmp(line, "observe ", 8)) { do_side(0, (unsigned) strtoul(line + 8, NULL, 10) & 7);
   } else { (void) b; say("badop"); }
 }
 
@@ -289,6 +514,142 @@ static void gen_restrict_set(hwloc_bitmap_t s, int bynode, const char **kindname
   }
 }
 
+
+/* ---- side structures given to a share of the topologies before the restrict chain */
+static hwloc_obj_t random_obj_any(void) {
+  struct objlist l = {0};
+  ol_collect(&l, hwloc_get_root_obj(topo));
+  hwloc_obj_t r = l.o[rng_below(l.n)];
+  free(l.o);
+  return r;
+}
+static hwloc_obj_t random_obj_of_type(hwloc_obj_type_t ty) {
+  int n = hwloc_get_nbobjs_by_type(topo, ty);
+  return n > 0 ? hwloc_get_obj_by_type(topo, ty, rng_below((unsigned) n)) : NULL;
+}
+static void emit_cpuset_arg(FILE *m, hwloc_const_bitmap_t s) { put_set(m, s); }
+
+static void gen_dist(unsigned long *budget, unsigned serial) {
+  static const hwloc_obj_type_t homo[] = { HWLOC_OBJ_NUMANODE, HWLOC_OBJ_PU, HWLOC_OBJ_CORE, HWLOC_OBJ_PACKAGE, HWLOC_OBJ_NUMANODE, HWLOC_OBJ_PU,
+                                           HWLOC_OBJ_L3CACHE, HWLOC_OBJ_L2CACHE, HWLOC_OBJ_GROUP, HWLOC_OBJ_DIE, HWLOC_OBJ_PCI_DEVICE, HWLOC_OBJ_OS_DEVICE, HWLOC_OBJ_MISC };
+  hwloc_obj_t objs[16]; unsigned n = 0;
+  int hetero = rng_chance(50);
+  if (!hetero) {
+    hwloc_obj_type_t ty = homo[rng_below(sizeof homo / sizeof *homo)];
+    int nb = hwloc_get_nbobjs_by_type(topo, ty);
+    if (nb < 2) { ty = HWLOC_OBJ_PU; nb = hwloc_get_nbobjs_by_type(topo, ty); }
+    if (nb < 2) hetero = 1;
+    else {
+      unsigned want = 2 + rng_below(rng_chance(40) ? 2 : 7);
+      if (rng_chance(50)) {   /* a run in logical order from a random start */
+        unsigned a = rng_below((unsigned) nb);
+        for (unsigned i = 0; i < want && a + i < (unsigned) nb; i++) objs[n++] = hwloc_get_obj_by_type(topo, ty, a + i);
+      } else for (unsigned i = 0; i < want; i++) objs[n++] = hwloc_get_obj_by_type(topo, ty, rng_below((unsigned) nb));
+      stat_hit("side.dist.homogeneous");
+    }
+  }
+  if (hetero) {
+    unsigned want = 2 + rng_below(rng_chance(30) ? 2 : 6);
+    for (unsigned i = 0; i < want; i++) {
+      hwloc_obj_t o = NULL;
+      switch (rng_below(7)) {
+      case 0: o = random_obj_of_type(HWLOC_OBJ_PU); break;
+      case 1: o = random_obj_of_type(HWLOC_OBJ_CORE); break;
+      case 2: o = random_obj_of_type(HWLOC_OBJ_PACKAGE); break;
+      case 3: o = random_obj_of_type(HWLOC_OBJ_NUMANODE); break;
+      case 4: o = random_obj_with_sets(-1); break;
+      default: o = random_obj_any(); break;
+      }
+      if (!o) o = random_obj_any();
+      objs[n++] = o;
+    }
+    stat_hit("side.dist.mixed-types");
+  }
+  static const unsigned long kinds[] = { 2 | 4, 2 | 8, 2 | 32, 1 | 4, 1 | 8, 2, 0, 8 };
+  unsigned long kind = kinds[rng_below(sizeof kinds / sizeof *kinds)];
+  if (rng_chance(3)) kind = rng_chance(50) ? (1 | 2 | 4) : (2 | 4 | 8);   /* refused */
+  char *buf = NULL; size_t len = 0; FILE *m = open_memstream(&buf, &len);
+  if (rng_chance(30)) fprintf(m, "dist - "); else fprintf(m, "dist %s%u ", rng_chance(20) ? "NVLinkBandwidth" : "ud", serial);
+  fprintf(m, "%lu %u %u", kind, rng_below(1000000), n);
+  for (unsigned i = 0; i < n; i++) fprintf(m, " %lu", k_of_obj(objs[i]));
+  fclose(m);
+  emit("%s", buf); free(buf);
+  if (*budget) (*budget)--;
+}
+
+static void gen_cpukind(unsigned long *budget) {
+  hwloc_obj_t root = hwloc_get_root_obj(topo), o;
+  hwloc_bitmap_t c = hwloc_bitmap_alloc();
+  switch (rng_below(6)) {
+  case 0: random_subset(c, root->complete_cpuset, rng_chance(50) ? 50 : 25); break;
+  case 1: o = random_obj_of_type(HWLOC_OBJ_PACKAGE); if (o) hwloc_bitmap_copy(c, o->cpuset); break;
+  case 2: o = random_obj_of_type(HWLOC_OBJ_CORE); if (o) hwloc_bitmap_copy(c, o->cpuset); break;
+  case 3: o = random_obj_of_type(HWLOC_OBJ_PU); if (o) hwloc_bitmap_copy(c, o->cpuset); break;
+  case 4: o = random_obj_with_sets(-1); if (o) hwloc_bitmap_copy(c, o->cpuset); break;
+  default: { /* the upper or lower half of the PUs */
+      int n = hwloc_get_nbobjs_by_type(topo, HWLOC_OBJ_PU), h = rng_chance(50);
+      for (int i = 0; i < n; i++) if ((i < n / 2) == h) hwloc_bitmap_set(c, hwloc_get_obj_by_type(topo, HWLOC_OBJ_PU, i)->os_index);
+      if (rng_chance(15)) hwloc_bitmap_set(c, hwloc_bitmap_last(root->complete_cpuset) + 1 + rng_below(40));   /* a PU the topology does not have */
+    }
+  }
+  if (hwloc_bitmap_iszero(c)) hwloc_bitmap_copy(c, root->cpuset);
+  if (hwloc_bitmap_iszero(c)) hwloc_bitmap_set(c, 0);
+  int forced = rng_chance(20) ? -1 : (int) rng_below(rng_chance(50) ? 3 : 6);
+  static const char *const infos[][2] = { { "CoreType", "IntelAtom" }, { "CoreType", "IntelCore" }, { "FrequencyMaxMHz", "3400" }, { "FrequencyMaxMHz", "2100" },
+    { "FrequencyBaseMHz", "1800" }, { "FrequencyBaseMHz", "1200" }, { "foo", "bar" }, { "FrequencyMaxMHz", "-7" } };
+  unsigned ni = rng_chance(40) ? 0 : 1 + rng_below(3);
+  char *buf = NULL; size_t len = 0; FILE *m = open_memstream(&buf, &len);
+  fprintf(m, "cpukind "); emit_cpuset_arg(m, c); fprintf(m, " %d %u", forced, ni);
+  for (unsigned i = 0; i < ni; i++) { unsigned k = rng_below(sizeof infos / sizeof *infos); fprintf(m, " %s %s", infos[k][0], infos[k][1]); }
+  fclose(m);
+  emit("%s", buf); free(buf);
+  hwloc_bitmap_free(c);
+  if (*budget) (*budget)--;
+}
+
+static void gen_mval(unsigned long *budget, unsigned ncustom, const unsigned long *cflags) {
+  static const char *const builtin[] = { "Bandwidth", "Latency", "ReadBandwidth", "WriteLatency" };
+  const char *an; char nm[16]; int needinit;
+  if (ncustom && rng_chance(55)) { unsigned k = rng_below(ncustom); snprintf(nm, sizeof nm, "ma%u", k); an = nm; needinit = !!(cflags[k] & 4); }
+  else { an = builtin[rng_below(4)]; needinit = 1; }
+  hwloc_obj_t t = rng_chance(80) ? random_obj_of_type(HWLOC_OBJ_NUMANODE) : random_obj_with_sets(-1);
+  if (!t) t = hwloc_get_root_obj(topo);
+  char *buf = NULL; size_t len = 0; FILE *m = open_memstream(&buf, &len);
+  fprintf(m, "mval %s %lu ", an, k_of_obj(t));
+  if (!needinit && rng_chance(90)) fputc('-', m);
+  else if (rng_chance(65)) {
+    hwloc_bitmap_t c = hwloc_bitmap_alloc(); hwloc_obj_t o;
+    switch (rng_below(4)) {
+    case 0: random_subset(c, hwloc_get_root_obj(topo)->cpuset, rng_chance(50) ? 50 : 20); break;
+    case 1: hwloc_bitmap_copy(c, t->cpuset); break;
+    default: o = random_obj_with_sets(rng_chance(50) ? -1 : rng_chance(50) ? (int) HWLOC_OBJ_PACKAGE : (int) HWLOC_OBJ_CORE); if (!o) o = t; hwloc_bitmap_copy(c, o->cpuset); break;
+    }
+    if (hwloc_bitmap_iszero(c) && rng_chance(90)) hwloc_bitmap_copy(c, hwloc_get_root_obj(topo)->cpuset);
+    fputc('c', m); put_set(m, c); hwloc_bitmap_free(c);
+  } else {
+    hwloc_obj_t o = rng_chance(60) ? random_obj_with_sets(-1) : random_obj_any();
+    fprintf(m, "o%lu", k_of_obj(o));
+  }
+  fprintf(m, " %u", 1 + rng_below(rng_chance(30) ? 4 : 100000));
+  fclose(m);
+  emit("%s", buf); free(buf);
+  if (*budget) (*budget)--;
+}
+
+static void gen_side_setup(unsigned long *budget) {
+  unsigned nd = rng_chance(75) ? 1 + rng_below(3) : 0;
+  for (unsigned i = 0; i < nd; i++) gen_dist(budget, i);
+  if (rng_chance(65)) { unsigned nk = 2 + rng_below(3); for (unsigned i = 0; i < nk; i++) gen_cpukind(budget); stat_hit("side.cpukinds"); }
+  if (rng_chance(65)) {
+    unsigned ncustom = rng_below(3); unsigned long cflags[2] = { 0, 0 };
+    static const unsigned long fl[] = { 1, 2, 5, 6, 5, 6 };
+    for (unsigned i = 0; i < ncustom; i++) { cflags[i] = rng_chance(4) ? 3 : fl[rng_below(6)]; emit("mattr ma%u %lu", i, cflags[i]); if (*budget) (*budget)--; }
+    unsigned nv = 2 + rng_below(7);
+    for (unsigned i = 0; i < nv; i++) gen_mval(budget, ncustom, cflags);
+    stat_hit("side.memattrs");
+  }
+}
+
 static void gen_one_topology(unsigned long *budget) {
   char filters[32], arg[1200], line[2600];
   unsigned long tflags = rng_chance(25) ? 1 : 0;   /* INCLUDE_DISALLOWED */
@@ -309,7 +670,14 @@ static void gen_one_topology(unsigned long *budget) {
     for (unsigned i = 0; i < ng; i++) { emit("group %u %u", rng_below(100000), rng_chance(75) ? 1u : 0u); if (*budget) (*budget)--; }
     stat_hit("groups");
   }
-  unsigned nrestrict = 1 + rng_below(4);
+  /* side structures: a good share of the topologies get user distances, CPU kinds and memory attribute values; the bundled XML
+   * files bring their own; both are observed (adopted) before the first restrict */
+  int xml = line[5] == 'X';
+  int side = 0;
+  if (rng_chance(45)) { gen_side_setup(budget); side = 1; stat_hit("side.setup"); }
+  else if (xml && rng_chance(50)) side = 1;
+  if (side) { emit("sideinit"); if (*budget) (*budget)--; }
+  unsigned nrestrict = side ? 2 + rng_below(4) : 1 + rng_below(4);
   stat_hit("chain.%u", nrestrict);
   for (unsigned r = 0; r < nrestrict && topo_loaded; r++) {
     unsigned nmisc = rng_chance(55) ? rng_below(5) : 0;
@@ -346,6 +714,12 @@ static void gen_one_topology(unsigned long *budget) {
     stat_hit(after < before ? "effect.removed_objects" : "effect.no_object_removed");
     if (hwloc_topology_get_depth(topo) < depth_before) stat_hit("effect.fewer_levels");
     if (r > 0) stat_hit("repeat.call%u", r + 1);
+    /* the side structures are refreshed lazily by the queries: observe after half of the calls only (and not always all three
+     * families), so that the next restrict meets unrefreshed caches the other half of the time; always after the last call */
+    if (side && topo_loaded && (r + 1 == nrestrict || rng_chance(50))) {
+      unsigned mask = (r + 1 == nrestrict || rng_chance(60)) ? 7 : 1 + rng_below(6);
+      emit("observe %u", mask); if (*budget) (*budget)--;
+    }
   }
 }
 
